@@ -79,7 +79,11 @@ Twice(sq) == [i \in 1..(2 * Len(sq)) |-> sq[(i + 1) \div 2]]
 Few(S) ==
   LET FP == {b \in S : b.from \in F}
       HP == S \ FP
-  IN {Asc(S), Desc(S), Asc(FP) \o Asc(HP), Asc(HP) \o Asc(FP), Desc(FP) \o Asc(HP), Asc(HP) \o Desc(FP),
+  IN IF OrdMode = "min"    \* three orders per node: faulty packets last / first / split around the honest ones
+     THEN {Asc(HP) \o Asc(FP), Asc(FP) \o Asc(HP)}
+          \cup (IF FP = {} THEN {} ELSE {<<Asc(FP)[1]>> \o Asc(HP) \o Tail(Asc(FP))})
+     ELSE
+     {Asc(S), Desc(S), Asc(FP) \o Asc(HP), Asc(HP) \o Asc(FP), Desc(FP) \o Asc(HP), Asc(HP) \o Desc(FP),
       Twice(Asc(S)), Asc(HP) \o Asc(FP) \o Desc(HP)}
        \cup (IF FP = {} THEN {} ELSE {<<Asc(FP)[1]>> \o Asc(HP) \o Tail(Asc(FP)), <<Desc(FP)[1]>> \o Asc(HP) \o Tail(Desc(FP))})
 NodeOrders(S, ph) ==
